@@ -280,7 +280,8 @@ func (tr *Tr) havocMods(st, pre *State, mods map[string]modInfo) {
 		nt := tr.freshSym("top", false)
 		tr.sc.factLocal(sLe(pre.top, nt))
 		st.top = nt
-		for name, mi := range mods {
+		for _, name := range sortedKeys(mods) {
+			mi := mods[name]
 			if mi.sort != "" {
 				tr.symTop[st.vars[name].(Sc).T] = nt
 				tr.heapVersionAxiom(name, st.vars[name].(Sc).T, mi.sort, nt, true)
@@ -843,7 +844,8 @@ func (tr *Tr) iterateCall(fr *Frame, key string, fc *FuncContract, f *ssa.Functi
 	nt := tr.freshSym("top", false)
 	tr.sc.factLocal(sLe(st.top, nt))
 	hst.top = nt
-	for name, mi := range mods {
+	for _, name := range sortedKeys(mods) {
+		mi := mods[name]
 		if mi.sort != "" {
 			tr.symTop[hst.vars[name].(Sc).T] = nt
 			tr.heapVersionAxiom(name, hst.vars[name].(Sc).T, mi.sort, nt, true)
